@@ -14,8 +14,10 @@
    process (no drops at all).  The property as a whole stays partial (manifest): the
    events are what reqwest/hyper/tokio deliver, persist is one step by the kernel's rename
    atomicity, a concurrently writing second process is outside the model. *)
+(* C12's names (run, step, outcome, ..) must not shadow C16.Model's: C12 is loaded FIRST and always written with its full name *)
+From RM Require C12.Model C12.Proofs.
 From RM Require Import C09.Grammar C10.Model C16.Model C16.Proofs C16.Rehit C16.Driver C16.Shared C16.SharedProofs C16.SharedProofs2 C16.Refine Gen.C16Ops.
-From RM Require C09.Model C10.Stream C16.Stream C16.StreamProofs C16.StreamInst C16.StreamProofs2 C16.StreamPins C16.StaleFlag C16.Raii C16.RaiiProofs C16.StreamRefine C16.LocateSrc Gen.C16Locate.
+From RM Require C09.Model C10.Stream C16.Stream C16.StreamProofs C16.StreamInst C16.StreamProofs2 C16.StreamPins C16.StaleFlag C16.Raii C16.RaiiProofs C16.StreamRefine C16.LocateSrc Gen.C16Locate C16.StreamRaii C16.StreamRaiiProofs C16.InProcess.
 Open Scope Z_scope.
 
 Section Statements.
@@ -529,19 +531,57 @@ Theorem c16_stream_failed_body_leaves_nothing :
 Proof. exact SP.stream_fetch_failed_body. Qed.
 Print Assumptions c16_stream_failed_body_leaves_nothing.
 
+(* The streaming download under OWNERSHIP rules (C16/StreamRaii.v, second pass of round 5).  C16/Stream.v places the removal of
+   the temp file by hand ([gone := drop_temp f1 tf] on every exit edge) and reconstructs the tmp directory of a dropped / suspended
+   download after the fact.  The ownership machine threads the file system through parse_async's loop — every callback call WRITES
+   when it happens, a failed write runs `temp = None` (an assignment: the old value is dropped) —, keeps `temp` in the loop state
+   and has ONE drop site, applied whenever the frame is left: Ok, `?`, unwinding, the future dropped in `response.chunk().await`
+   after any number of iterations; `commit_cache_file(temp, ..)` takes the handle by value.  These functions ARE Stream.v's,
+   for every recogniser, body script, outcome of every fs call and number of iterations. *)
+Theorem c16_stream_is_ownership_semantics :
+  forall (L : Type) (llen : L -> Z) (PS : Type) (init_ps : PS) (recog : PS -> L -> PS + Z) (bump : PS -> PS)
+         (lineno : PS -> Z) (T : Type) (finish : PS -> option T) (split : bytes -> list L * Z) (p : path) e u f b script k,
+  RM.C16.StreamRaii.own_fetch L llen PS init_ps recog bump lineno T finish split p e u f b script
+    = S.stream_fetch L llen PS init_ps recog bump lineno T finish split p e u f b script /\
+  RM.C16.StreamRaii.own_dropped L llen PS init_ps recog bump lineno split p e f b script k
+    = S.stream_fetch_dropped L llen PS init_ps recog bump lineno split p e f b script k /\
+  fst (RM.C16.StreamRaii.own_inflight L llen PS init_ps recog bump lineno split p e f b script k)
+    = S.stream_fetch_inflight L llen PS init_ps recog bump lineno split p e f b script k.
+Proof.
+  intros. split; [apply RM.C16.StreamRaiiProofs.own_fetch_is_stream_fetch|].
+  split; [apply RM.C16.StreamRaiiProofs.own_dropped_is_stream_dropped|apply RM.C16.StreamRaiiProofs.own_inflight_is_stream_inflight].
+Qed.
+Print Assumptions c16_stream_is_ownership_semantics.
+
+(* RAII on the ownership machine itself (an invariant over the loop, not read off hand-placed drops): while the download runs the
+   frame owns at most ONE file in tmp — the one that was not there before — and the cache is as it was; leaving the frame after
+   ANY number of iterations restores tmp; so does every exit of the completed call that is not Ok. *)
+Theorem c16_stream_raii :
+  forall (L : Type) (llen : L -> Z) (PS : Type) (init_ps : PS) (recog : PS -> L -> PS + Z) (bump : PS -> PS)
+         (lineno : PS -> Z) (T : Type) (finish : PS -> option T) (split : bytes -> list L * Z) (p : path) e u f b script k,
+  RM.C16.StreamRaiiProofs.OInv f (RM.C16.StreamRaii.own_inflight L llen PS init_ps recog bump lineno split p e f b script k) /\
+  (let g := RM.C16.StreamRaii.own_dropped L llen PS init_ps recog bump lineno split p e f b script k in
+   (forall q, cache g q = cache f q) /\ tmp g = tmp f) /\
+  (let r := RM.C16.StreamRaii.own_fetch L llen PS init_ps recog bump lineno T finish split p e u f b script in
+   (forall t, snd r <> S.FOk t) -> (forall q, cache (fst r) q = cache f q) /\ tmp (fst r) = tmp f).
+Proof.
+  intros. split; [apply RM.C16.StreamRaiiProofs.own_inflight_owned|].
+  split; [apply RM.C16.StreamRaiiProofs.own_dropped_clean|apply RM.C16.StreamRaiiProofs.own_fetch_error_clean].
+Qed.
+Print Assumptions c16_stream_raii.
+
 (* The future dropped after ANY number of loop iterations (the loop's only await is response.chunk()): cache and tmp as
-   before; while in flight: at most our one temp file.  (`_partial` for the same reason as above: that the drop of the
-   future's locals removes the NamedTempFile is a definition — drop_temp — here too.) *)
-Theorem c16_stream_dropped_leaves_nothing_partial :
+   before; while in flight: at most our one temp file.  Was c16_stream_dropped_leaves_nothing_partial: the statement is the same,
+   it is now derived from the two theorems above (RM.C16.StreamRaiiProofs.stream_dropped_from_ownership), not from the drop_temp
+   calls written into stream_fetch_dropped. *)
+Theorem c16_stream_dropped_leaves_nothing :
   forall (L : Type) (llen : L -> Z) (PS : Type) (init_ps : PS) (recog : PS -> L -> PS + Z) (bump : PS -> PS)
          (lineno : PS -> Z) (split : bytes -> list L * Z) (p : path) e f b script k,
   SP.unchanged f (S.stream_fetch_dropped L llen PS init_ps recog bump lineno split p e f b script k) /\
   let g := S.stream_fetch_inflight L llen PS init_ps recog bump lineno split p e f b script k in
   cache_eq g f /\ (tmp g = tmp f \/ exists n c, n = fresh (tmp f) /\ tmp g = (n, c) :: tmp f).
-Proof.
-  intros. split; [apply SP.stream_fetch_dropped_clean|apply SP.stream_fetch_inflight_one].
-Qed.
-Print Assumptions c16_stream_dropped_leaves_nothing_partial.
+Proof. exact RM.C16.StreamRaiiProofs.stream_dropped_from_ownership. Qed.
+Print Assumptions c16_stream_dropped_leaves_nothing.
 
 (* The loop these theorems are about is the loop of the SOURCE: [step_stream] equals the function assembled from the
    conditions, flag updates and buffer arithmetic that translate/symfile_loop.py extracts from parse_async
@@ -711,6 +751,53 @@ Proof.
   apply SR.model_failed_response; assumption.
 Qed.
 Print Assumptions c16_model_failed_response_is_stream_fetch.
+
+(* Non-vacuity of the ownership machine: the C09/C10 recogniser, the 38-byte example body in pieces [15][0][23]; suspended after one
+   iteration the frame owns temp file 0, which holds the first line (15 bytes: what the callback has been given); dropped there:
+   tmp empty, cache empty; run to the end: the entry. *)
+Example c16_nonvacuous_stream_ownership :
+  let script := [C10.Stream.SChunk 15; C10.Stream.SChunk 0; C10.Stream.SChunk 23] in
+  let infl := RM.C16.StreamRaii.own_inflight rle cllen C09.Grammar.pst init_pst recog_pst bump_pst lineno_pst RM.C16.StreamInst.split_c 7 ex_senv ex_sfs ex_sbody script 1 in
+  let drp := RM.C16.StreamRaii.own_dropped rle cllen C09.Grammar.pst init_pst recog_pst bump_pst lineno_pst RM.C16.StreamInst.split_c 7 ex_senv ex_sfs ex_sbody script 1 in
+  let fin := RM.C16.StreamRaii.own_fetch rle cllen C09.Grammar.pst init_pst recog_pst bump_pst lineno_pst Grammar.table RM.C16.StreamInst.finish_c RM.C16.StreamInst.split_c 7 ex_senv [104] ex_sfs ex_sbody script in
+  tmp (fst infl) = [(0, firstn 15 ex_sbody)] /\ snd infl = S.TOpen 0 15 /\ cache (fst infl) 7 = None /\
+  tmp drp = [] /\ cache drp 7 = None /\
+  tmp (fst fin) = [] /\ cache (fst fin) 7 = Some (File (cached_form ex_sbody [104])).
+Proof. vm_compute. repeat split; reflexivity. Qed.
+
+(* Several lookups of the SAME module at the same time inside ONE process (second pass of round 5; C16/InProcess.v).  Every lookup
+   goes through the Symbolizer's per-module slot; C12's model of it (any tasks, any lookups, EVERY executor schedule, the supplier
+   future suspended anywhere) calls the supplier at most once per module key (C12.Proofs.at_most_once = c12_at_most_once).  One call
+   of the supplier is one [locate] of C16/Model.v.  Composed, for every configuration and schedule of the process, every initial file
+   system, every server list and every event list of each call: the process does to the servers and to the cache directory what ONE
+   lookup does (or nothing) — the request log of the whole process for that module is a prefix of the server list, each server at
+   most once —, so every single-lookup theorem above holds for the process as a whole; two downloads of one entry at the same time can
+   only come from different processes (the shared-cache machine: the c16_shared theorems). *)
+Theorem c16_process_is_one_lookup :
+  forall (T : Type) (parse : bytes -> option (T * option bytes)) (early : bytes -> bool) (p : path)
+         (locals : list (option bytes)) (ss : list server) (evs_of : nat -> list event)
+         (c : C12.Model.config) (sched : list C12.Model.task) (k : C12.Model.key) (f : fs),
+  let pr := RM.C16.InProcess.process T parse early p locals ss evs_of c sched k f in
+  let one := locate T parse early p f locals None ss (evs_of 0%nat) in
+  (pr = ([], f) \/ pr = (s_log one, s_fs one)) /\
+  exists dn rest, ss = dn ++ rest /\ fst pr = map s_id dn.
+Proof.
+  intros. split; [apply RM.C16.InProcess.process_is_one_lookup|apply RM.C16.InProcess.process_requests_prefix].
+Qed.
+Print Assumptions c16_process_is_one_lookup.
+
+(* non-vacuity: two tasks look the same module (key 0) up at the same time, the supplier future suspends twice; under the schedule
+   [0;1;0;1;0;1;1] the supplier has been called once, and the process' effect is that of the one lookup: the request went to
+   server 5 and the entry is there *)
+Example c16_nonvacuous_process :
+  let c := C12.Model.Build_config [[0%nat]; [0%nat]] (fun _ => 2%nat) (fun _ => C12.Model.OOk) (fun _ => 0%nat) in
+  let sched := [0; 1; 0; 1; 0; 1; 1]%nat in
+  let srv := mkserver 5 [104] ex_senv in
+  let evs := [EHead 200; EChunk ex_sbody; EEof] in
+  let pr := RM.C16.InProcess.process table parse_drv (fun _ => false) 7 [] [srv] (fun _ => evs) c sched 0%nat ex_sfs in
+  C12.Model.supplier_calls (C12.Model.run c sched) 0%nat = 1%nat /\
+  fst pr = [5] /\ cache (snd pr) 7 = Some (File (cached_form ex_sbody [104])) /\ tmp (snd pr) = [].
+Proof. vm_compute. repeat split; reflexivity. Qed.
 
 (* The class of seeded/C16-7 stated on the model (C16/StaleFlag.v: the loop with a fast path `if consumed == 0 { continue; }`
    in front of the bookkeeping after parse_more, so that fully_consumed keeps the previous iteration's value).
